@@ -14,6 +14,7 @@ func init() {
 		Title: "Sampler admits the first N then every Mth entry per level and message per tick",
 		Fn:    checkC11,
 		Explanation: "The counter dynamics over arbitrary arrival patterns and the exact window boundary are runtime arithmetic and are NOT decided. Decided, by exploring every path of sampler.Check with the entry level fixed to each value from one below to one above the valid range (helpers inline, every other condition forked): a disabled entry returns the incoming entry before any counter access; an enabled entry with an out-of-range level is forwarded unsampled with no counter access and no hook; an in-range entry looks up the bucket of (its level, its message), counts with its own timestamp and the sampler's tick, and then the conditions established on the path determine drop = n > first ∧ (thereafter = 0 ∨ (n − first) mod thereafter ≠ 0) by three-valued evaluation; the hook is called exactly once with the decision actually applied (dropped: the incoming entry is returned; sampled: (ent, ce) is forwarded to the wrapped core), the modulo is only evaluated after thereafter ≠ 0 was established, and nothing else influences the decision. IncCheckReset has exactly the three paths of the window protocol (open window: Add(1); elapsed: Store(1), compare-and-swap of the window end from the loaded value to timestamp + tick, winner reports 1, loser Add(1)), driven by the entry timestamp only. Further: bucket index = level − _minLevel and a hash over every byte of the message modulo the table width, table dimensions equal to the guards, counters stored inline as atomics, derived cores sharing counters/tick/first/thereafter/hook, and the wiring of Config.Sampling (installed iff present, Initial→first, Thereafter→thereafter, 1 s tick). " +
+			"Also decided: the bucket counted is table[level - _minLevel][fnv32a(message) mod _countersPerLevel] of the sampler's own table for every in-range level (wherever the index is computed); Logger.check hands Core.Check an entry that already carries the logger's clock reading (the sampler's windows are judged by it). " +
 			"NOT decided: that counts are exact under all arrival orders, CAS race accounting, inclusive/exclusive window boundary, hash collisions.",
 		Assumptions: commonAssumptions,
 	}
